@@ -49,7 +49,8 @@ func cmdI18Load(args []string) error {
 		}
 		var layout []string
 		for f := 0; f < nfiles; f++ {
-			dir := []string{"", "en/", "en/sub/", "pl/", "a/b/c/"}[r.Intn(5)]
+			// "every directory layout": names that begin with a dot are names like any other
+			dir := []string{"", "en/", "en/sub/", "pl/", "a/b/c/", ".local/", "en/..data/", "en.d/"}[r.Intn(8)]
 			obj := map[string]interface{}{}
 			inner := map[string]interface{}{}
 			nkeys := 1 + r.Intn(3)
@@ -72,6 +73,9 @@ func cmdI18Load(args []string) error {
 			}
 			b, _ := json.Marshal(obj)
 			name := fmt.Sprintf("%stranslations%d.json", dir, f)
+			if f%6 == 5 {
+				name = fmt.Sprintf("%s.t%d.json", dir, f)
+			}
 			fs.WriteFile("lang/"+name, b, filesystem.DefaultUnixFileMode)
 			layout = append(layout, name)
 		}
